@@ -16,11 +16,17 @@ class _Continue(Exception):
     pass
 
 
+class Returned(Exception):
+    def __init__(self, value):
+        self.value = value
+
+
 class Env:
     def __init__(self, vectors=None, scalars=None, max_steps=10000, resolve=None):
         self.vec = dict(vectors or {})      # name (last component) -> list
         self.var = dict(scalars or {})      # name -> number
         self.resolve = resolve              # optional: node -> value or None (for members that share a last component)
+        self.oncall = None                  # optional: call node -> number or list (vector-valued getter) or None
         self.steps = 0
         self.max_steps = max_steps
 
@@ -61,17 +67,34 @@ def ev(n, env):
         raise Unsupported("unbound " + str(nm))
     if k == "Call":
         nm = T.callee_name(n)
-        if nm == "size":
-            o = T.strip_casts(T.call_obj(n))
-            if T.is_node(o) and _name(o) in env.vec:
-                return len(env.vec[_name(o)])
+        if env.oncall is not None:
+            v = env.oncall(n)
+            if v is not None and not isinstance(v, list):
+                return v
+
+        def vec_of(o):
+            o = T.strip_casts(o)
+            if T.is_node(o) and o[0] in ("Ref", "Member") and _name(o) in env.vec:
+                return env.vec[_name(o)], _name(o)
+            if T.is_node(o) and o[0] == "Call" and env.oncall is not None:
+                v = env.oncall(o)
+                if isinstance(v, list):
+                    return v, T.callee_name(o)
+            return None, None
+        if nm in ("size", "back", "front") and T.call_obj(n) is not None:
+            v, _ = vec_of(T.call_obj(n))
+            if v is not None:
+                if nm == "size":
+                    return len(v)
+                if not v:
+                    raise IndexError(nm + " of empty vector")
+                return v[-1] if nm == "back" else v[0]
         if nm == "operator[]" and n[4]:
-            o = T.strip_casts(n[4][0])
-            if T.is_node(o) and _name(o) in env.vec:
+            v, vn = vec_of(n[4][0])
+            if v is not None:
                 i = ev(n[4][1], env)
-                v = env.vec[_name(o)]
                 if not (0 <= i < len(v)):
-                    raise IndexError("%s[%d]" % (_name(o), i))
+                    raise IndexError("%s[%d]" % (vn, i))
                 return v[i]
         if nm in ("fmod", "floor", "ceil", "fabs", "trunc") and n[4]:
             import math
@@ -179,11 +202,17 @@ def run(s, env):
             env.steps += 1
             if env.steps > env.max_steps:
                 raise Unsupported("step budget")
+    elif k == "Return":
+        raise Returned(ev(s[2], env) if len(s) > 2 and T.is_node(s[2]) else None)
     elif k == "Break":
         raise _Break()
     elif k == "Continue":
         raise _Continue()
     elif k in ("Bin", "Un", "Call"):
         ev(s, env)
+    elif k == "Decl":
+        for d in s[2]:
+            if d[2] is not None:
+                env.var[d[0]] = ev(d[2], env)
     else:
         raise Unsupported("statement " + k)
